@@ -809,6 +809,11 @@ class _Frame:
             return v != 0
         if isinstance(v, EnumVal):
             return True
+        if isinstance(v, XArray) and v.size == 1:
+            # numpy: the truth of a one-entry array is the truth of its entry
+            return self.truth(v.data[0], node)
+        if isinstance(v, Poly) and v.is_const():
+            return self.truth(v.const_value(), node)
         if getattr(type(v), "_xeval_truth", False):
             return bool(v)  # an analysis-side value that states its own truth (the rule that supplies it runs both ways)
         raise self.bad(f"branch condition does not fold to a constant ({type(v).__name__})", node)
@@ -1517,6 +1522,29 @@ class _Frame:
             if fn.base_exprs == ["str"] and not fn.methods and len(args) == 1 and not kwargs and isinstance(args[0], (str, EnumVal)):
                 # a bare subclass of str (class ProblemType(str): pass): the string itself
                 return str(args[0].value) if isinstance(args[0], EnumVal) else args[0]
+            if fn.qualname in getattr(self.I, "constructible", ()) and any(b.split(".")[-1] == "NamedTuple" for b in fn.base_exprs) and "__init__" not in fn.methods:
+                # typing.NamedTuple: the annotated fields of the class body, in order, with their defaults
+                fields, defaults = [], {}
+                for st in fn.node.body:
+                    if isinstance(st, ast.AnnAssign) and isinstance(st.target, ast.Name):
+                        fields.append(st.target.id)
+                        if st.value is not None:
+                            defaults[st.target.id] = st.value
+                if len(args) > len(fields):
+                    raise XRaise("TypeError", f"{fn.name}() takes {len(fields)} positional arguments but {len(args)} were given")
+                vals = dict(zip(fields, args))
+                for k, v in kwargs.items():
+                    if k not in fields or k in vals:
+                        raise XRaise("TypeError", f"{fn.name}() got an unexpected or repeated keyword argument '{k}'")
+                    vals[k] = v
+                for k in fields:
+                    if k not in vals:
+                        if k not in defaults:
+                            raise XRaise("TypeError", f"{fn.name}() missing required argument '{k}'")
+                        vals[k] = _Frame(self.I, {}, fn.module.relpath, fn.module, None).ev(defaults[k])
+                obj = XObj(fn, {k: vals[k] for k in fields})
+                obj.attrs["_fields"] = tuple(fields)
+                return obj
             if fn.qualname in getattr(self.I, "constructible", ()):
                 # opt-in: plain instantiation (object.__new__ + the class's own __init__)
                 obj = XObj(fn, {})
@@ -1825,7 +1853,24 @@ def _np_sqrt(x):
         return Q(0)
     if isinstance(x, Rat) and x.is_poly() and x.as_poly().is_const():
         x = x.as_poly().const_value()
+    if APPROX_SQRT_DIGITS is not None and isinstance(x, (int, Fraction)) and x > 0:
+        # opt-in (incremental scenarios whose statements are inequalities with a margin): no surds - the exact root of a
+        # perfect square, otherwise the root rounded to that many digits
+        from math import isqrt
+
+        x = Fraction(x)
+        if x.numerator.bit_length() > 2000 or x.denominator.bit_length() > 2000:
+            sc2 = 10 ** (4 * APPROX_SQRT_DIGITS)
+            x = Fraction(round(x * sc2), sc2)
+        rn, rd = isqrt(x.numerator), isqrt(x.denominator)
+        if rn * rn == x.numerator and rd * rd == x.denominator:
+            return Fraction(rn, rd)
+        sc = 10 ** APPROX_SQRT_DIGITS
+        return Fraction(isqrt(x.numerator * sc * sc // x.denominator), sc)
     return MQ.sqrt(x)
+
+
+APPROX_SQRT_DIGITS = None
 
 
 def _np_zeros(shape, dtype=None, **kw):
@@ -2912,11 +2957,51 @@ def _np_linalg_inv(a):
 
 
 def _np_linalg_solve(a, b):
+    out = _np_linalg_solve_exact(a, b)
+    if APPROX_SQRT_DIGITS is not None and isinstance(out, XArray):
+        # the rounding backend of incremental scenarios (see e2e.World.round_digits): dense solves are rounded as well
+        sc = 10 ** APPROX_SQRT_DIGITS
+        vals = []
+        for v in out.data:
+            if isinstance(v, Poly) and v.is_const():
+                v = v.const_value()
+            vals.append(Fraction(round(Fraction(v) * sc), sc) if isinstance(v, (int, Fraction)) else v)
+        out = XArray(out.shape, vals)
+    return out
+
+
+def _np_linalg_solve_exact(a, b):
     from .xsparse import solve_dense, SingularSystem
 
     a, b = XArray.from_nested(a), XArray.from_nested(b)
-    if a.ndim != 2:
-        raise Uninterpretable("np.linalg.solve on a stack of matrices is not modelled")
+    if a.ndim > 2:
+        # a stack of systems (numpy 2 semantics: b is a stack of matrices (..., n, k) when b.ndim == a.ndim, a stack of
+        # vectors (..., n) when b.ndim == a.ndim - 1), solved one by one
+        n = a.shape[-1]
+        if a.shape[-2] != n:
+            raise XRaise("LinAlgError", "Last 2 dimensions of the array must be square")
+        lead = a.shape[:-2]
+        cnt = 1
+        for d in lead:
+            cnt *= d
+        vec = b.ndim == a.ndim - 1
+        if not vec and b.ndim != a.ndim:
+            raise Uninterpretable("np.linalg.solve: broadcasting of the stacked right-hand side is not modelled")
+        if b.shape[:len(lead)] != lead or b.shape[len(lead)] != n:
+            raise XRaise("ValueError", f"solve: mismatch in dimensions {a.shape} / {b.shape}")
+        k = 1 if vec else b.shape[-1]
+        out = []
+        for m in range(cnt):
+            rows = [[a.data[(m * n + i) * n + j] for j in range(n)] for i in range(n)]
+            try:
+                if vec:
+                    out.extend(solve_dense(rows, [b.data[m * n + i] for i in range(n)]))
+                else:
+                    X = solve_dense(rows, [[b.data[(m * n + i) * k + c] for c in range(k)] for i in range(n)])
+                    out.extend(v for row in X for v in row)
+            except SingularSystem:
+                raise XRaise("LinAlgError", "Singular matrix")
+        return XArray(b.shape, out)
     n = a.shape[0]
     rows = [[a[i, j] for j in range(n)] for i in range(n)]
     try:
@@ -2928,6 +3013,68 @@ def _np_linalg_solve(a, b):
     return XArray((n, b.shape[1]), [v for row in X for v in row])
 
 
+def _np_linalg_eigh(a, **kw):
+    """np.linalg.eigh of ONE symmetric matrix of numbers, in the rounding mode of incremental scenarios only (cyclic Jacobi
+    rotations on exact rationals, every rotation rounded to 2 n digits): eigenvalues ascending, eigenvectors as columns,
+    accurate to about n digits.  Outside that mode the function stays unmodelled."""
+    if APPROX_SQRT_DIGITS is None:
+        raise Uninterpretable("numpy function np.linalg.eigh is not modelled")
+    A = XArray.from_nested(a)
+    if A.ndim != 2 or A.shape[0] != A.shape[1]:
+        raise Uninterpretable("np.linalg.eigh on a stack of matrices is not modelled")
+    n = A.shape[0]
+    sc = 10 ** APPROX_SQRT_DIGITS
+    rnd = lambda v: Fraction(round(v * sc), sc)
+    M = []
+    for i in range(n):
+        row = []
+        for j in range(n):
+            v = exact(A[i, j])
+            if isinstance(v, Poly) and v.is_const():
+                v = v.const_value()
+            if isinstance(v, MQ):
+                v = v.rational() if v.is_rational() else Fraction(v.approx())
+            if not isinstance(v, (int, Fraction)):
+                raise Uninterpretable("np.linalg.eigh of a symbolic matrix is not modelled")
+            row.append(Fraction(v))
+        M.append(row)
+    # numpy reads the lower triangle
+    for i in range(n):
+        for j in range(i + 1, n):
+            M[i][j] = M[j][i]
+    V = [[Fraction(int(i == j)) for j in range(n)] for i in range(n)]
+    tiny = Fraction(1, sc)
+    for sweep in range(60):
+        off = sum(M[i][j] * M[i][j] for i in range(n) for j in range(i))
+        if off <= tiny * tiny:
+            break
+        for p_ in range(n):
+            for q_ in range(p_ + 1, n):
+                if M[p_][q_] == 0:
+                    continue
+                theta = (M[q_][q_] - M[p_][p_]) / (2 * M[p_][q_])
+                t = 1 / (abs(theta) + _np_sqrt(theta * theta + 1))
+                if theta < 0:
+                    t = -t
+                t = rnd(t)
+                c = rnd(1 / _np_sqrt(t * t + 1))
+                s_ = rnd(t * c)
+                for k in range(n):
+                    mkp, mkq = M[k][p_], M[k][q_]
+                    M[k][p_], M[k][q_] = rnd(c * mkp - s_ * mkq), rnd(s_ * mkp + c * mkq)
+                for k in range(n):
+                    mpk, mqk = M[p_][k], M[q_][k]
+                    M[p_][k], M[q_][k] = rnd(c * mpk - s_ * mqk), rnd(s_ * mpk + c * mqk)
+                for k in range(n):
+                    vkp, vkq = V[k][p_], V[k][q_]
+                    V[k][p_], V[k][q_] = rnd(c * vkp - s_ * vkq), rnd(s_ * vkp + c * vkq)
+    order = sorted(range(n), key=lambda i: M[i][i])
+    w = XArray((n,), [M[i][i] for i in order])
+    v = XArray((n, n), [V[r][i] for r in range(n) for i in order])
+    return (w, v)
+
+
+_NP_FUNCS.setdefault("linalg.eigh", _np_linalg_eigh)
 _NP_FUNCS.setdefault("linalg.inv", _np_linalg_inv)
 _NP_FUNCS.setdefault("linalg.solve", _np_linalg_solve)
 
